@@ -5,7 +5,7 @@
  *
  * cfg: backend "epoll"|"epollcl"|"poll"|"select", sigfd 0|1, mode "snap"|"real",
  *      fdnum [fd number of slot 1, ...], kind ["sp"|"tcp"|"pr"|"pw", ...], keeper [slot,...]
- * ops: add{e,fd,m,et} del{e} close{fd} reopen{fd}
+ * ops: add{e,fd,m,et} del{e} close{fd} reopen{fd} reinit (event_reinit in the same process)
  *      wait            one loop iteration (EVLOOP_ONCE|EVLOOP_NONBLOCK|EVLOOP_NO_EXIT_ON_EMPTY)
  *      pw drain fill pdrain pshut pclose prst {fd}   environment (peer) operations
  *
@@ -343,6 +343,9 @@ static void run_scenario(jval *sc)
 			fprintf(out, "\"r\":%ld", r);
 		} else if (!strcmp(a, "reopen")) {
 			r = open_slot(s);
+			fprintf(out, "\"r\":%ld", r);
+		} else if (!strcmp(a, "reinit")) {
+			r = event_reinit(base);
 			fprintf(out, "\"r\":%ld", r);
 		} else if (!strcmp(a, "wait")) {
 			klen = rlen = clen = 0; nwaits = 0; ninternal = 0;
